@@ -206,6 +206,28 @@ def run(case):
         for t in range(T):
             if oracle.match_rows(wimg[t], sv[t], 1e-6) is None:
                 raise Violation('symmetrize-images-under-the-group', f'{how}, group {name}: frame {t}: rows {np.round(sv[t], 4).tolist()[:8]} are not the images {np.round(wimg[t], 4).tolist()[:8]} of the {nb} vectors under the {no} operations')
+    # a long run (the vectors of this one repeated cyclically): more than 2^20 numbers in one symmetrisation
+    if case.get('long_sym'):
+        import dataclasses
+
+        reps = -(-case['long_sym'] // T)
+        o_long = gcall(lambda: dataclasses.replace(o, in_vectors=np.tile(np.asarray(o.vectors, float), (reps, 1, 1))))
+        s_long = np.asarray(gcall(o_long.symmetrize, sym_group=name).vectors, float)
+        nb, no = want.shape[1], len(ops_name)
+        if s_long.shape != (reps * T, nb * no, 3):
+            raise Violation('symmetrize-one-image-per-operation', f'{reps * T} frames: shape {s_long.shape} vs {(reps * T, nb * no, 3)}')
+        wimg = np.einsum('kij,tbj->tbki', ops_name, want).reshape(T, nb * no, 3)
+        for t in sorted({0, 1, reps * T - 1, reps * T // 2, 909 % (reps * T), 910 % (reps * T), 2731 % (reps * T)}):
+            if oracle.match_rows(wimg[t % T], s_long[t], 1e-6) is None:
+                raise Violation('symmetrize-images-under-the-group', f'group {name}, {reps * T} frames x {nb} vectors x {no} operations: frame {t} does not hold the images of its vectors')
+    # what a derived object reports must not depend on what its parent was asked before the derivation
+    if 'autocorrelation' in case.get('parent_reads', []):
+        o_p = gcall(Orientations, traj, 'P', 'S')  # a pristine parent, never asked anything
+        for how_, f_ in (('normalize', lambda x: x.normalize()), ('transform', lambda x: x.transform(A))):
+            a1 = gcall(gcall(f_, o).autocorrelation, allow=(ValueError,))
+            a2 = gcall(gcall(f_, o_p).autocorrelation, allow=(ValueError,))
+            if isinstance(a1, Raised) != isinstance(a2, Raised) or (not isinstance(a1, Raised) and (np.shape(a1) != np.shape(a2) or not np.allclose(np.asarray(a1, float), np.asarray(a2, float), rtol=1e-9, atol=1e-12, equal_nan=True))):
+                raise Violation('derived-object-independent-of-parent-history', f'autocorrelation of the {how_}d object differs between a parent that was asked for its autocorrelation first and a pristine one')
     # spherical representation is invertible
     sph = np.asarray(gcall(lambda: o.vectors_spherical), float)
     az, el, r = np.radians(sph[..., 0]), np.radians(sph[..., 1]), sph[..., 2]
@@ -317,6 +339,7 @@ def mol_cases(draw, tier, min_frames=2):
     return {'lattice': lat, 'frames': T, 'centres': centres, 'bonds': bonds, 'quats': quats, 'drift': drift,
             'order': draw(st.permutations(list(range(15)))), 'matrix': [[draw(st.floats(-2, 2)) for _ in range(3)] for _ in range(3)], 'matrix_scale': draw(st.sampled_from([1.0, 1.0, 1.0, 1e-10, 1e-5, 1e-15, 1e6, 1e12])),
             'parent_reads': draw(st.lists(st.sampled_from(['spherical', 'spherical', 'autocorrelation', 'vectors']), max_size=2)),
+            'long_sym': draw(st.sampled_from([None, None, None, None, None, 911, 1000, 2731, 3000])),
             'image_shift': ([[[draw(st.sampled_from([0, 0, 0, 1, -1, 3])) for _ in range(3)] for _ in range(5 * Nc)] for _ in range(T)] if draw(st.integers(0, 3)) == 0 else None),
             'point_group': draw(st.sampled_from(PG)), 'species_kind': draw(st.sampled_from(['Species', 'Element'])), 'normalized': draw(st.booleans()),
             'conj': draw(st.sampled_from([[0.3, -0.5, 0.7, 0.4], [0.9, 0.1, 0.1, 0.4], [0.5, 0.5, 0.5, 0.5]])), 'extend_at': draw(st.integers(0, 6))}
